@@ -25,6 +25,12 @@ def world_runs(tier, seed, q=240, t=1200, tn=10, qn=4):
     return [{"mode": "world", "args": ["--seed", seed * 1000 + i, "--count", t]} for i in range(tn)]
 
 
+def pump_runs(tier, seed, q=150, t=1200, n=3):
+    """histories that spend their steps on the profit-taking / vault-draining / liquidate-the-losers campaign"""
+    cnt = q if tier == "quick" else t
+    return [{"mode": "world", "args": ["--seed", seed * 7000 + i, "--count", cnt, "--bias", "pump"]} for i in range(n)]
+
+
 def fault_runs(tier, seed, q=60, t=600, tn=6):
     if tier == "quick":
         return [{"mode": "fault", "args": ["--seed", seed * 100 + 50 + i, "--count", q // 2]} for i in range(2)]
@@ -150,13 +156,13 @@ PROPS = {
     },
     "C06": {
         "lean_modules": ["Perp.Props.EngineMoney", "Perp.Props.EngineGuards", "Perp.Props.CurveNoFlip", "Perp.Props.SatDBase", "Perp.Props.SatDC06", "Perp.Props.SatDWitness", "Perp.Props.SatD"],
-        "runs": lambda tier, seed: world_runs(tier, seed, q=1200, qn=8),
-        "rule": WORLD_RULE, "assumptions": WORLD_ASSUMPTIONS,
+        "runs": lambda tier, seed: world_runs(tier, seed, q=1200, qn=8) + pump_runs(tier, seed),
+        "rule": WORLD_RULE + "; plus three runs biased to the profit-taking / empty-vault / liquidation campaign", "assumptions": WORLD_ASSUMPTIONS,
     },
     "C07": {
         "lean_modules": ["Perp.Props.LiqTwin", "Perp.Props.EngineGuards", "Perp.Props.SatDBase", "Perp.Props.SatDC07", "Perp.Props.SatDWitness", "Perp.Props.SatD"],
-        "runs": lambda tier, seed: world_runs(tier, seed, q=1200, qn=8),
-        "rule": WORLD_RULE, "assumptions": WORLD_ASSUMPTIONS,
+        "runs": lambda tier, seed: world_runs(tier, seed, q=1200, qn=8) + pump_runs(tier, seed),
+        "rule": WORLD_RULE + "; plus three runs biased to the profit-taking / empty-vault / liquidation campaign", "assumptions": WORLD_ASSUMPTIONS,
     },
     "C10": {
         "lean_modules": ["Perp.Props.WorldInv", "Perp.Props.EngineMoney", "Perp.Props.SatA.C10", "Perp.Props.SatA"],
